@@ -94,6 +94,7 @@ REAL_DECL(int, unlink, const char *)
 REAL_DECL(int, ftruncate64, int, off64_t)
 REAL_DECL(int, ftruncate, int, off_t)
 REAL_DECL(int, isatty, int)
+REAL_DECL(pid_t, getpid, void)
 REAL_DECL(void, abort, void)
 typedef long (*syscall_fn)(long, ...);
 static syscall_fn real_syscall = nullptr;
@@ -150,6 +151,7 @@ static void resolve_real()
     R(ftruncate64);
     R(ftruncate);
     R(isatty);
+    R(getpid);
     R(abort);
     real_syscall = (syscall_fn)next_sym("syscall");
 #undef R
@@ -1182,6 +1184,12 @@ void fs_stamp(const char *abs_path, int64_t wall_ns)
     utimensat(AT_FDCWD, abs_path, ts, 0);
 }
 
+static int g_fake_pid = 0;
+void set_fake_pid(int pid)
+{
+    g_fake_pid = pid;
+}
+
 static int g_isatty1 = -1, g_isatty2 = -1;
 void set_isatty(int a1, int a2)
 {
@@ -1761,6 +1769,14 @@ int ftruncate64(int fd, off64_t len)
 int ftruncate(int fd, off_t len)
 {
     return ftruncate64(fd, (off64_t)len);
+}
+
+pid_t getpid(void)
+{
+    ENSURE_REAL();
+    if (g_fake_pid > 0)
+        return (pid_t)g_fake_pid;
+    return real_getpid();
 }
 
 // ---------------------------------------------------------- tty and syslog --
